@@ -494,6 +494,17 @@ func genSet(t *rapid.T) (*ymodel.Set, []PathQ) {
 			inner = inner[:40]
 		}
 		paths = append(paths, inner...)
+		// from the older revision loaded beside the set: a node whose statement stands in the submodule that only
+		// the older revision includes (own-prefix paths lead into that revision's tree), and its root
+		if mm := set.Find(set.Older); mm != nil && set.OlderText() != nil {
+			from := set.Older + "@2019-05-05"
+			for _, st := range []string{"oldsub-c", "older-only", ""} {
+				paths = append(paths,
+					PathQ{From: from, Start: st, Path: "/" + mm.Prefix + ":older-only"},
+					PathQ{From: from, Start: st, Path: "/" + mm.Prefix + ":oldsub-c/" + mm.Prefix + ":x"},
+					PathQ{From: from, Start: st, Path: "/" + mm.Prefix + ":older-only/" + mm.Prefix + ":from-oldsub"})
+			}
+		}
 	}
 	return set, paths
 }
